@@ -43,6 +43,7 @@ import (
 	"verif.local/vfkit"
 
 	"github.com/KafScale/platform/internal/testutil"
+	"github.com/KafScale/platform/pkg/protocol"
 )
 
 const c18Finding = "C18-stale-release-delete"
@@ -118,6 +119,11 @@ type c18World struct {
 	unnoticed      bool
 	overtaken      bool
 	rotated        bool
+	sessionRaced   bool
+
+	adminStore       *EtcdStore
+	adminStoreCancel context.CancelFunc
+	topicDeletes     int
 }
 
 type c18Mgr struct {
@@ -428,8 +434,13 @@ func (l *c18Lease) Revoke(_ context.Context, id clientv3.LeaseID) (*clientv3.Lea
 		return nil, err
 	}
 	ctx, cancel := c18Ctx()
-	defer cancel()
-	return l.Lease.Revoke(ctx, id)
+	resp, err := l.Lease.Revoke(ctx, id)
+	cancel()
+	// the lease (and every key on it) is gone on the server; the caller does not know yet
+	if gerr := l.m.gate("revoke", "post", "", func(g *c18Gate) { g.callErr = err != nil }); gerr != nil {
+		return nil, gerr
+	}
+	return resp, err
 }
 
 func (l *c18Lease) Close() error { return nil } // the underlying lessor is shared
@@ -853,6 +864,85 @@ func (w *c18World) zombieExit(i int) error {
 	return w.kill(z)
 }
 
+// sessionRace: the manager's current session ends while ANOTHER Acquire of the same manager,
+// which found no session earlier and is still creating its own (its Grant call g is parked),
+// gets to the manager's second locked block before the session monitor does. The harness holds
+// a read lock on the manager's mutex, lets the Grant through (the new session is created and
+// the goroutine queues for the write lock), ends the current session, and lets go.
+func (w *c18World) sessionRace(m *c18Mgr, g *c18Gate) (bool, error) {
+	lm := m.lm()
+	lm.mu.RLock()
+	sess := lm.session
+	if sess == nil {
+		lm.mu.RUnlock()
+		return false, nil
+	}
+	w.mu.Lock()
+	w.trace = append(w.trace, g.label())
+	w.mu.Unlock()
+	w.unpark(g, nil)
+	queued := false
+	deadline := time.Now().Add(30 * time.Second)
+	for time.Now().Before(deadline) {
+		if lm.mu.TryRLock() {
+			lm.mu.RUnlock()
+		} else {
+			queued = true
+			break
+		}
+		w.mu.Lock()
+		a := w.active
+		w.mu.Unlock()
+		if a == 0 {
+			break
+		}
+		time.Sleep(20 * time.Microsecond)
+	}
+	ctx, cancel := c18Ctx()
+	_, err := w.adminCli.Revoke(ctx, sess.Lease())
+	cancel()
+	if err == nil || strings.Contains(err.Error(), "lease not found") {
+		sess.Orphan()
+		err = nil
+	}
+	lm.mu.RUnlock()
+	if werr := w.waitQuiet(); werr != nil {
+		return false, werr
+	}
+	if err != nil {
+		return false, fmt.Errorf("%w: revoke: %v", errC18Inconclusive, err)
+	}
+	w.awaitNoticed(m, sess)
+	w.trace = append(w.trace, fmt.Sprintf("session of %s.%d ended while a concurrent acquire was installing its own session [queued before the monitor=%v]", m.id, m.gen, queued))
+	return queued, nil
+}
+
+// adminDeleteTopic: an operator deletes (and re-creates) the topic the partition leases belong
+// to, through a real EtcdStore on the same etcd. Topic administration is not lease
+// administration: the owners' sessions live on, so their lease keys must survive.
+func (w *c18World) adminDeleteTopic() error {
+	ctx, cancel := c18Ctx()
+	defer cancel()
+	if w.adminStore == nil {
+		cctx, ccancel := context.WithCancel(context.Background())
+		w.adminStoreCancel = ccancel
+		cli := clientv3.NewCtxClient(cctx)
+		cli.KV = w.adminKV
+		cli.Lease = &c18NoCloseLease{w.adminCli.Lease}
+		w.adminStore = &EtcdStore{client: cli, available: 1, metadata: NewInMemoryStore(ClusterMetadata{
+			Brokers: []protocol.MetadataBroker{{NodeID: 0, Host: "b0", Port: 9092}}})}
+	}
+	if _, err := w.adminStore.CreateTopic(ctx, TopicSpec{Name: "orders", NumPartitions: 2, ReplicationFactor: 1}); err != nil && !errors.Is(err, ErrTopicExists) {
+		return fmt.Errorf("%w: admin CreateTopic: %v", errC18Inconclusive, err)
+	}
+	if err := w.adminStore.DeleteTopic(ctx, "orders"); err != nil {
+		return fmt.Errorf("%w: admin DeleteTopic: %v", errC18Inconclusive, err)
+	}
+	w.topicDeletes++
+	w.trace = append(w.trace, "admin: DeleteTopic(orders)")
+	return nil
+}
+
 func (w *c18World) lapsePending() bool {
 	for _, m := range w.dead {
 		if len(m.grants) > 0 {
@@ -917,6 +1007,9 @@ func (w *c18World) cleanup() {
 	_ = w.waitQuiet()
 	for _, m := range append(append(append([]*c18Mgr{}, w.mgrs...), w.dead...), w.zombies...) {
 		m.cancel()
+	}
+	if w.adminStoreCancel != nil {
+		w.adminStoreCancel()
 	}
 	w.mu.Lock()
 	ids := append([]clientv3.LeaseID{}, w.allGrant...)
@@ -1055,7 +1148,7 @@ func TestVF_C18_Schedules(t *testing.T) {
 		launchOne := func() {
 			launched++
 			opk := rapid.SampledFrom([]string{"acquire", "acquire", "acquire", "acquire", "acquire", "acquire", "release", "release", "release", "release",
-				"expire", "expire", "expire-overtake", "expire-overtake", "rotate", "rotate", "releaseAll", "crash", "crash", "takeover"}).Draw(rt, "op")
+				"expire", "expire", "expire-overtake", "expire-overtake", "rotate", "rotate", "session-race", "session-race", "releaseAll", "crash", "crash", "takeover"}).Draw(rt, "op")
 			// a lease key is free while another broker's write for it is still on its way: that is
 			// the moment a competing acquire is most interesting, so it is usually started now
 			racing := false
@@ -1128,6 +1221,74 @@ func TestVF_C18_Schedules(t *testing.T) {
 					pk = free[rapid.IntRange(0, len(free)-1).Draw(rt, "freeIdx")]
 				}
 				startAcquire(pk.slot, pk.r)
+			case "session-race":
+				// two acquires of one manager start without a session; the second one's session is
+				// installed and used, then ends exactly while the first one installs its own
+				if nres < 2 {
+					ops = append(ops, "skip-session-race")
+					return
+				}
+				var cands []int
+				for sl, c := range w.mgrs {
+					if !c.closed && len(c.inAcq) == 0 {
+						busy := false
+						for _, g := range w.parkedNow() {
+							if g.mgr == c {
+								busy = true
+							}
+						}
+						if !busy {
+							cands = append(cands, sl)
+						}
+					}
+				}
+				if len(cands) == 0 {
+					ops = append(ops, "skip-session-race")
+					return
+				}
+				m := w.mgrs[cands[rapid.IntRange(0, len(cands)-1).Draw(rt, "raceIdx")]]
+				if _, err := w.expire(m); err != nil { // start from "no session"
+					fail("", err)
+				}
+				v, err := w.check(nres)
+				fail(v, err)
+				x := rapid.IntRange(0, nres-1).Draw(rt, "raceFirst")
+				y := (x + 1) % nres
+				startAcquire(m.slot, x) // T1: parks at its Grant
+				var t1 *c18Gate
+				for _, g := range w.parkedNow() {
+					if g.mgr == m && g.kind == "grant" && g.phase == "pre" {
+						t1 = g
+					}
+				}
+				startAcquire(m.slot, y) // T2
+				if t1 == nil {
+					ops = append(ops, "skip-session-race")
+					return
+				}
+				for i := 0; i < 6; i++ { // T2 runs to the end: own session, acquires y
+					var next *c18Gate
+					for _, g := range w.parkedNow() {
+						if g.mgr == m && g != t1 {
+							next = g
+							break
+						}
+					}
+					if next == nil {
+						break
+					}
+					v, err := w.step(next)
+					fail(v, err)
+					v, err = w.check(nres)
+					fail(v, err)
+				}
+				queued, err := w.sessionRace(m, t1)
+				fail("", err)
+				ops = append(ops, fmt.Sprintf("session-race(b%d: acquire %d creates its session late, acquire %d's session ends meanwhile, queued=%v)", m.slot, x, y, queued))
+				if queued {
+					w.sessionRaced = true
+					w.contended = true
+				}
 			case "rotate":
 				// "the session is rotated by an Acquire of another resource while the answer to an
 				// acquire transaction for X is still undelivered": if no manager is in that position
@@ -1389,10 +1550,18 @@ func TestVF_C18_Schedules(t *testing.T) {
 			for zi := range w.zombies {
 				choice = append(choice, -3-zi)
 			}
+			// an operator deletes and re-creates the topic (partition flavour, at most twice)
+			const evTopic = -1000
+			if kind == "partition" && w.topicDeletes < 2 && (n > 0 || canLaunch) {
+				choice = append(choice, evTopic)
+			}
 			i := choice[rapid.IntRange(0, len(choice)-1).Draw(rt, "pick")]
 			if i >= 0 {
 				v, err := w.step(el[i])
 				fail(v, err)
+			} else if i == -1000 {
+				fail("", w.adminDeleteTopic())
+				ops = append(ops, "admin-delete-topic")
 			} else if i == -2 {
 				nl, err := w.lapse()
 				fail("", err)
@@ -1455,6 +1624,9 @@ func TestVF_C18_Schedules(t *testing.T) {
 		}
 		if w.rotated {
 			st.Class("session-rotated-while-an-acquire-answer-is-undelivered")
+		}
+		if w.sessionRaced {
+			st.Class("session-ends-while-a-concurrent-acquire-installs-its-own-session")
 		}
 		if w.unnoticed {
 			st.Class("manager-did-not-notice-session-loss-by-itself")
